@@ -9,7 +9,8 @@
 //!   `z` reset   `f` flush   `o` graceful reopen (drop + open)   `k` process crash (copy of the live dir, no drop) + open
 //!   a leading `c` (File only): also report what every crash image taken *inside* the op reopens to.
 //! Output per op (joined with `;`): `<last_index> <entries> <purge-boundary> <durable?> <entry()-consistency>`
-//!   File adds ` disk=<record index sequence in log.data> dur=<entries of the image as of the last sync_all>`
+//!   File adds ` disk=<record index sequence in log.data> dur=<entries of the image as of the last sync_all>
+//!   re=<entries/last of a store opened on log.data as it is now>`
 //!   and for `c` ops ` {point>entries/last,...}`.
 use std::cell::RefCell;
 use std::path::{Path, PathBuf};
@@ -224,7 +225,8 @@ fn exec(case: &str) -> String {
         let mut o = if ok { ls.observe(&rt) } else { format!("op-err {}", ls.observe(&rt)) };
         if is_file {
             let bytes = std::fs::read(dir.join("log.data")).unwrap_or_default();
-            o += &format!(" disk={} dur={}", disk_records(&bytes), reopen_file_image(&rt, &durable.borrow()));
+            // `re` = what a store opened on the file as it is right now would hold (process crash at this very moment)
+            o += &format!(" disk={} dur={} re={}", disk_records(&bytes), reopen_file_image(&rt, &durable.borrow()), reopen_file_image(&rt, &bytes));
             if crash {
                 let parts: Vec<String> = images.borrow().iter()
                     .map(|(n, b)| format!("{}>{}", n.strip_prefix("log:").unwrap_or(n), reopen_file_image(&rt, b))).collect();
